@@ -118,6 +118,28 @@ func genObject(t string, depth int, g *prng.R, vs vocabSet, top bool) map[string
 	for i, n := 0, g.Intn(3); i < n; i++ {
 		m[fmt.Sprintf("x-ext-%d", g.Intn(5))] = genUnknown(g, 2)
 	}
+	// members that are properties of OTHER types are unknown members here
+	if g.Chance(1, 3) {
+		for tries := 0; tries < 4; tries++ {
+			p := O.PropKeys[g.Intn(len(O.PropKeys))]
+			name := O.Props[p].Name
+			if knownProp(t, name) != "" || len(propsByName[name]) != 1 {
+				continue
+			}
+			if _, dup := m[name]; dup {
+				continue
+			}
+			if O.Props[p].NatLang && knownProp(t, name) == "" {
+				// keep clear of the Map spelling rules
+			}
+			m[name] = genUnknown(g, 1)
+			break
+		}
+	}
+	// a typeless object may carry a member called "type": it is an unknown member there
+	if ty.Typeless && g.Chance(1, 2) {
+		m["type"] = g.Str("Key", "CryptographicKey", "Note")
+	}
 	return m
 }
 
